@@ -137,6 +137,15 @@ func runOneClause(r *common.Run, st *stats) {
 			plain = append(plain, q)
 		}
 	}
+	// fully specified clauses (selectable through one alias) and every shape with a single
+	// modifier also go through the several-graphs exploration: the existence check of a
+	// constant clause must look at every FROM graph
+	for _, q := range qs {
+		c := q.Where[0]
+		if q.GlobalKind == "" && c.S.Kind == bqlm.Const && c.P.Kind == bqlm.Const && c.O.Kind == bqlm.Const {
+			plain = append(plain, q)
+		}
+	}
 	r.Set("multi_graph_shapes", len(plain))
 	common.ParallelFor(len(masks), func(mi int) {
 		mask := masks[mi]
@@ -218,6 +227,57 @@ func runTwoClause(r *common.Run, st *stats) {
 			}
 		}
 	})
+	// a reduced set of two-clause shapes over TWO FROM graphs, each designed graph split in
+	// both directions (first clause's triples may live in the first or in the last graph)
+	ac := aliasClauses()
+	full := []bqlm.Clause{
+		{S: bqlm.Term{Kind: bqlm.Const, N: bqlm.NA}, P: bqlm.Term{Kind: bqlm.Const, P: bqlm.PImm}, O: bqlm.Term{Kind: bqlm.Const, N: bqlm.NB}},
+		{S: bqlm.Term{Kind: bqlm.Const, N: bqlm.NA}, P: bqlm.Term{Kind: bqlm.Const, P: bqlm.PT1}, O: bqlm.Term{Kind: bqlm.Const, N: bqlm.NB}},
+		{S: bqlm.Term{Kind: bqlm.Const, N: bqlm.NC}, P: bqlm.Term{Kind: bqlm.Const, P: bqlm.PImm}, O: bqlm.Term{Kind: bqlm.Const, N: bqlm.NC}},
+	}
+	ac = append(ac, full...)
+	type splitT struct {
+		data  map[string][]*triple.Triple
+		store storage.Store
+	}
+	splits := make([][2]splitT, len(graphs))
+	for gi := range graphs {
+		for half := 0; half < 2; half++ {
+			var a, b []*triple.Triple
+			for ti, t := range graphs[gi]["?g"] {
+				if (ti%2 == 0) == (half == 0) {
+					a = append(a, t)
+				} else {
+					b = append(b, t)
+				}
+			}
+			d := map[string][]*triple.Triple{"?g": a, "?h": b}
+			splits[gi][half] = splitT{d, bqlm.NewStore(d)}
+		}
+	}
+	var splitShapes int64
+	common.ParallelFor(len(ac), func(i int) {
+		for j := range ac {
+			for k, named := range bqlm.Namings([]bqlm.Clause{ac[i], ac[j]}) {
+				if len(bqlm.AllBindings(named)) == 0 {
+					continue
+				}
+				atomic.AddInt64(&splitShapes, 1)
+				for gi := range graphs {
+					for half := 0; half < 2; half++ {
+						sp := splits[gi][half]
+						q := &bqlm.Query{From: []string{"?g", "?h"}, Where: named, Proj: bqlm.SelectAll(named)}
+						v := bqlm.Compare(q, sp.store, sp.data, 0)
+						report(r, st, "two-split", fmt.Sprintf("twosplit:%d:%d:%d:%d:%d", i, j, k, gi, half), q, sp.data, v)
+					}
+					if !r.Thorough() && gi >= 3 {
+						break
+					}
+				}
+			}
+		}
+	})
+	r.Set("two_clause_two_graph_shapes", int(splitShapes))
 	r.Set("two_clause_shapes", int(shapes))
 	r.Set("two_clause_graphs", len(graphs))
 }
@@ -385,6 +445,7 @@ func main() {
 	r.Replayer("two", replay)
 	r.Replayer("multi", replay)
 	r.Replayer("alias", replay)
+	r.Replayer("two-split", replay)
 	r.MaybeReplay()
 	// validate the oracle itself against the maintainers' compliance stories
 	nOK, nSkip, verr := bqlm.ValidateAgainstStories("/repo/examples/compliance")
